@@ -56,6 +56,10 @@ Observe == /\ l = 1
            /\ Require(CoordinatesDistinct /\ CoordLenIsDepth /\ EnumOnce /\ ParentsFirst, T.id, "SpecEnumerationRequirements", l, <<>>)
            /\ T.has_debug =>
                 /\ Require(T.same_output, T.id, "DebugTransparent", l, <<>>)
+                \* a deep copy of the altered pipeline is a pipeline of its own (outputs, records), also after the
+                \* original is trained again; scikit-learn's own scorers see the same predictions as before
+                /\ Require(T.copy_ok, T.id, "DebugCopyIsIndependent", l, <<>>)
+                /\ Require(T.scorers_ok, T.id, "DebugTransparentForScorers", l, <<>>)
                 /\ Require(Unseen = {}, T.id, "DebugRecordsEveryStep", l, [nodes |-> Unseen])
                 /\ Require(BadRecord = {}, T.id, "DebugRecordsActualInputOutput", l, [nodes |-> BadRecord])
                 /\ Require(BadChain = {} /\ BadEnds = {}, T.id, "DebugChains", l, [chain |-> BadChain, ends |-> BadEnds])
